@@ -1,8 +1,9 @@
 """C09 — peer-chosen names never escape the download directory or clobber a file (DESIGN §3 C09).
 
 This module holds the *pure* part (case documents tagged ``{"t": "pure", ...}``): remote path x strategy chain x
-download-directory contents, evaluated against the real naming strategies on a real temp directory.  The
-"concurrent downloads" part is a separate case family (its own tag); ``run_case`` dispatches on ``case["t"]`` and
+download-directory contents, evaluated against the real naming strategies on a real temp directory, and the
+*sequence* part (``{"t": "seq", ...}``): several calculations on one SharesManager while the download directory
+setting is changed in between.  The "concurrent downloads" part is a separate case family (its own tag); ``run_case`` dispatches on ``case["t"]`` and
 returns an empty result for tags it does not know, ``run_shard`` calls one ``_shard_<part>`` function per part.
 """
 from __future__ import annotations
@@ -38,9 +39,18 @@ RULE = (
     "and 'lib') name is not '', '.', '..' and contains neither '/' nor '\\' -- together with P1 this is 'strictly "
     "inside'; (P4, chains whose last element is number-duplicates and 'lib') join(dir, name) does not exist when "
     "returned; (P5) an exception instead of a result is a violation iff the remote path is well formed (at least one "
-    "non-empty component and no '.' or '..' component), otherwise the case is labelled 'rejected'. "
+    "non-empty component and no '.' or '..' component), otherwise the case is labelled 'rejected'; (P0, chains "
+    "without keep-directory and 'lib') realpath(dir) equals the configured download directory. "
+    "Sequence part (tag 'seq'): 2..4 path calculations on ONE SharesManager (chain 'lib' or a generated chain "
+    "assigned to naming_strategies) while settings.shares.download is re-assigned before each step to one of three "
+    "directories (sibling sharing a name prefix, nested directory), absolute or relative to the unchanged working "
+    "directory, with the target optionally pre-existing; every ordered pair / A,B,A triple of directories x "
+    "absolute/relative x 3 chains is enumerated. Each step is judged with P0..P5 against "
+    "abspath(settings.shares.download) read at the moment of the call; a result lying in an earlier configured "
+    "directory is reported as C09/previously-configured-download-directory-used. "
     "Non-trivial = the path has a '.', '..', empty, alias or drive component, or the un-numbered target already "
-    "exists; distinct = distinct (path string, chain, created contents)."
+    "exists (pure), at least one change of the configured directory (seq); distinct = distinct (path string, "
+    "chain, created contents) resp. (chain, step list)."
 )
 ASSUMPTIONS = [
     "P2 (regular file name) is asserted only for chains that contain DefaultNamingStrategy and for the library "
@@ -54,6 +64,13 @@ ASSUMPTIONS = [
     "alone are documented to ignore existing files",
     "P1 and P3 (no escape) are asserted for every chain; strictness for chains without the default strategy is not "
     "demanded because their name may legitimately be empty",
+    "'The configured download directory' is abspath(settings.shares.download) at the moment the path is chosen "
+    "(SharesManager.get_download_directory documents 'Absolute path of the value of the shares.download setting'; "
+    "the settings model is mutable at run time, validate_assignment=True). The working directory is never changed, "
+    "so a relative setting denotes one directory throughout a case. A Transfer keeps the local path chosen at its "
+    "first attempt (documented: chosen once), so a retry after a change of the setting is not judged again",
+    "P0 (directory equals the configured one) is asserted only for chains without KeepDirectoryStrategy: the default "
+    "and number-duplicates strategies are documented to return the directory they were given",
     "An exception for the empty path, a separators-only path or a path with a '.'/'..' component is counted as "
     "'rejected' and is not a violation: refusing such a path chooses no local path at all, which is safe, and the "
     "property does not say how refusal is signalled (on the unchanged tree the only instance is an IndexError from "
@@ -313,7 +330,6 @@ def run_pure_case(case, res: CaseResult):
 
         real = _own_split(path)
         usable = bool(real) and real[-1] not in ('.', '..')          # last component can serve as a file name
-        wellformed = bool(real) and not any(p in ('.', '..') for p in real)
         chain_name = 'lib' if chain == 'lib' else '>'.join(chain)
         target_pre_exists = False
         nondot = [p for p in real if p not in ('.', '..')]
@@ -340,9 +356,6 @@ def run_pure_case(case, res: CaseResult):
         except Exception as e:   # noqa: BLE001 - classified below
             exc = e
             result = None
-
-        has_default = chain == 'lib' or 'default' in chain
-        number_last = chain == 'lib' or chain[-1] == 'number'
 
         # ---- labels / non-triviality -----------------------------------
         raw = [c for _, c in case['parts'][:MAX_PARTS]]
@@ -379,68 +392,203 @@ def run_pure_case(case, res: CaseResult):
             res.label('download-dir-missing')
         res.nontrivial = bool(feats or target_pre_exists)
         res.key = [path, chain_name, sorted(created), mk]
+        _judge(res, path, chain, download, root, exc, result, created)
+    finally:
+        shutil.rmtree(tmp, ignore_errors=True)
 
-        # ---- P5: exception instead of a path ------------------------------
-        if exc is not None:
-            if wellformed:
-                res.violate(f'C09/unexpected-exception:{type(exc).__name__}@{_exception_site(exc)}',
-                            f'remote_path={path!r} chain={chain_name} contents={sorted(created)[:12]}: {exc!r}')
-            else:
-                res.label('rejected', f'rejected:{type(exc).__name__}')
+
+def _judge(res: CaseResult, path, chain, download, root, exc, result, created, prev_roots=(), step=''):
+    """Oracle P0..P5 for one path calculation. ``download`` is the absolute configured download directory at the
+    moment of the call, ``root`` its realpath, ``prev_roots`` the realpaths of directories configured earlier on the
+    same SharesManager (sequence cases)."""
+    real = _own_split(path)
+    usable = bool(real) and real[-1] not in ('.', '..')
+    wellformed = bool(real) and not any(p in ('.', '..') for p in real)
+    chain_name = 'lib' if chain == 'lib' else '>'.join(chain)
+    has_default = chain == 'lib' or 'default' in chain
+    number_last = chain == 'lib' or chain[-1] == 'number'
+    no_keep = chain == 'lib' or 'keep' not in chain
+    # ---- P5: exception instead of a path ------------------------------
+    if exc is not None:
+        if wellformed:
+            res.violate(f'C09/unexpected-exception:{type(exc).__name__}@{_exception_site(exc)}',
+                        f'{step}remote_path={path!r} chain={chain_name} contents={sorted(created)[:12]}: {exc!r}')
+        else:
+            res.label('rejected', f'rejected:{type(exc).__name__}')
+        return
+
+    if not (isinstance(result, tuple) and len(result) == 2 and all(isinstance(x, str) for x in result)) \
+            or '\x00' in result[0] or '\x00' in result[1]:
+        res.violate('C09/bad-return-value', f'{step}remote_path={path!r} chain={chain_name} returned {result!r}')
+        return
+    ldir, name = result
+    ctx_txt = f'{step}remote_path={path!r} chain={chain_name} -> dir={ldir!r} name={name!r}'
+    res.info = {'remote_path': path[:200], 'chain': chain_name, 'dir': os.path.relpath(ldir, download)[:200],
+                'name': name[:200]}
+    if ldir != download:
+        res.label('directory-changed')
+
+    # ---- P1: the directory does not leave the download directory ----------------
+    ldir_real = os.path.realpath(ldir)
+    dir_ok = _inside(ldir_real, root, strict=False)
+    in_previous = [pr for pr in prev_roots if pr != root and _inside(ldir_real, pr, strict=False)
+                   and '..' not in ldir.split(os.sep)]      # a '..' traversal is an escape, not a stale directory
+    if in_previous and (not dir_ok or (no_keep and ldir_real != root)):
+        # P0/P1 for a SharesManager whose setting was changed: the path still lies in a directory that was
+        # configured earlier, not in the one configured at the moment the path is chosen
+        res.violate('C09/previously-configured-download-directory-used',
+                    ctx_txt + f' lies in the earlier download directory {in_previous[-1]!r}; configured at the '
+                              f'moment of the call: {download!r}')
+    elif dir_ok and no_keep and ldir_real != root:
+        # P0: default / number-duplicates are documented to leave the directory alone
+        res.violate('C09/directory-differs-from-configured', ctx_txt + f', download directory is {root!r}')
+    elif not dir_ok:
+        if not (ldir == download or ldir.startswith(download + os.sep)):
+            how = 'outside-download-prefix'
+        elif '..' in ldir[len(download):].split(os.sep):
+            how = 'dotdot-component'
+        else:
+            how = 'other'
+        res.violate(f'C09/escape:directory:{how}', ctx_txt + f' resolves to {os.path.realpath(ldir)!r}, '
+                                                             f'download directory is {root!r}')
+
+    # ---- P2: regular file name (chains that produce a name) -----------------------
+    name_bad = None
+    if name == '':
+        name_bad = 'empty'
+    elif name in ('.', '..'):
+        name_bad = 'dot-component'
+    elif '/' in name or '\\' in name or os.sep in name:
+        name_bad = 'separator'
+    if name_bad and has_default:
+        res.violate(f'C09/irregular-name:{name_bad}', ctx_txt)
+    elif name_bad:
+        res.label('unnamed-chain-result:' + name_bad)
+
+    # ---- P3: the final path is not outside (strictly inside follows from P1 + P2) ----
+    final = os.path.join(ldir, name)
+    final_real = os.path.realpath(final)
+    if dir_ok and not (name_bad and has_default):
+        strict = not name_bad
+        if not _inside(final_real, root, strict=strict):
+            res.violate('C09/escape:path', ctx_txt + f' resolves to {final_real!r}, download directory is {root!r}')
+
+    # ---- P4: does not exist yet ----------------------------------------
+    if number_last and not (name_bad and has_default):
+        if os.path.lexists(final):
+            what = 'dir' if os.path.isdir(final) else 'file'
+            res.violate('C09/existing-path-chosen:' + ('lib' if chain == 'lib' else 'number-last'),
+                        ctx_txt + f' but that {what} already exists; contents={sorted(created)[:16]}')
+        elif usable and name != real[-1]:
+            res.label('renamed-to-fresh')
+
+
+# ---------------------------------------------------------------------------
+# sequence cases (tag 'seq'): several path calculations on ONE SharesManager while the user changes
+# settings.shares.download in between; every result is judged against the directory configured at that moment
+
+SEQ_DIRS = ['dl', 'dl2', 'dl/nested']          # relative to <tmp>/r: sibling sharing a name prefix, nested directory
+SEQ_PATHS = ['@@abcde\\Music\\song.mp3', 'Music/album\\song.mp3', 'song.mp3', '@@x\\a (1).txt', 'C:\\dir\\f.txt',
+             'a\\..\\b\\evil.txt', '..\\..\\x.txt', '@@abcde\\Music\\other.flac']
+SEQ_PRE = ['none', 'target', 'run']
+MAX_STEPS = 5
+
+
+@st.composite
+def seq_case(draw):
+    n = draw(st.integers(2, 4))
+    steps = []
+    for _ in range(n):
+        steps.append({'dir': draw(st.integers(0, len(SEQ_DIRS) - 1)), 'rel': draw(st.sampled_from([False, False, True])),
+                      'path': draw(st.integers(0, len(SEQ_PATHS) - 1)), 'pre': draw(st.sampled_from(SEQ_PRE))})
+    chain = draw(st.sampled_from(['lib', 'lib', 'lib'] + CHAINS))
+    return {'t': 'seq', 'chain': chain, 'steps': steps}
+
+
+def _enumerated_seq_cases():
+    """Every ordered pair (and A,B,A triple) of configured directories x absolute/relative setting x 3 chains."""
+    for chain in ('lib', ['default'], ['default', 'keep', 'number']):
+        for a, b in itertools.permutations(range(len(SEQ_DIRS)), 2):
+            for rel_a, rel_b in itertools.product((False, True), repeat=2):
+                yield {'t': 'seq', 'chain': chain, 'steps': [
+                    {'dir': a, 'rel': rel_a, 'path': 0, 'pre': 'none'}, {'dir': b, 'rel': rel_b, 'path': 0, 'pre': 'none'}]}
+            yield {'t': 'seq', 'chain': chain, 'steps': [
+                {'dir': a, 'rel': False, 'path': 0, 'pre': 'target'}, {'dir': b, 'rel': False, 'path': 0, 'pre': 'target'},
+                {'dir': a, 'rel': False, 'path': 7, 'pre': 'none'}]}
+
+
+def run_seq_case(case, res: CaseResult):
+    chain = case.get('chain')
+    steps = case.get('steps')
+    if chain != 'lib':
+        if not isinstance(chain, list) or not chain or len(chain) > 3 or len(set(map(str, chain))) != len(chain) \
+                or any(c not in STRATS for c in chain):
             return
-
-        if not (isinstance(result, tuple) and len(result) == 2 and all(isinstance(x, str) for x in result)) \
-                or '\x00' in result[0] or '\x00' in result[1]:
-            res.violate('C09/bad-return-value', f'remote_path={path!r} chain={chain_name} returned {result!r}')
+    if not isinstance(steps, list) or not steps:
+        return
+    plan = []
+    for stp in steps[:MAX_STEPS]:
+        if not isinstance(stp, dict):
             return
-        ldir, name = result
-        ctx_txt = f'remote_path={path!r} chain={chain_name} -> dir={ldir!r} name={name!r}'
-        res.info = {'remote_path': path[:200], 'chain': chain_name, 'dir': os.path.relpath(ldir, download)[:200],
-                    'name': name[:200]}
-        if ldir != download:
-            res.label('directory-changed')
-
-        # ---- P1: the directory does not leave the download directory ----------------
-        dir_ok = _inside(os.path.realpath(ldir), root, strict=False)
-        if not dir_ok:
-            if not (ldir == download or ldir.startswith(download + os.sep)):
-                how = 'outside-download-prefix'
-            elif '..' in ldir[len(download):].split(os.sep):
-                how = 'dotdot-component'
-            else:
-                how = 'other'
-            res.violate(f'C09/escape:directory:{how}', ctx_txt + f' resolves to {os.path.realpath(ldir)!r}, '
-                                                                 f'download directory is {root!r}')
-
-        # ---- P2: regular file name (chains that produce a name) -----------------------
-        name_bad = None
-        if name == '':
-            name_bad = 'empty'
-        elif name in ('.', '..'):
-            name_bad = 'dot-component'
-        elif '/' in name or '\\' in name or os.sep in name:
-            name_bad = 'separator'
-        if name_bad and has_default:
-            res.violate(f'C09/irregular-name:{name_bad}', ctx_txt)
-        elif name_bad:
-            res.label('unnamed-chain-result:' + name_bad)
-
-        # ---- P3: the final path is not outside (strictly inside follows from P1 + P2) ----
-        final = os.path.join(ldir, name)
-        final_real = os.path.realpath(final)
-        if dir_ok and not (name_bad and has_default):
-            strict = not name_bad
-            if not _inside(final_real, root, strict=strict):
-                res.violate('C09/escape:path', ctx_txt + f' resolves to {final_real!r}, download directory is {root!r}')
-
-        # ---- P4: does not exist yet ----------------------------------------
-        if number_last and not (name_bad and has_default):
-            if os.path.lexists(final):
-                what = 'dir' if os.path.isdir(final) else 'file'
-                res.violate('C09/existing-path-chosen:' + ('lib' if chain == 'lib' else 'number-last'),
-                            ctx_txt + f' but that {what} already exists; contents={sorted(created)[:16]}')
-            elif usable and name != real[-1]:
-                res.label('renamed-to-fresh')
+        try:
+            plan.append((int(stp.get('dir', 0)) % len(SEQ_DIRS), bool(stp.get('rel')),
+                         SEQ_PATHS[int(stp.get('path', 0)) % len(SEQ_PATHS)],
+                         stp.get('pre') if stp.get('pre') in SEQ_PRE else 'none'))
+        except (TypeError, ValueError):
+            return
+    from aioslsk.events import EventBus
+    from aioslsk.settings import CredentialsSettings, Settings
+    from aioslsk.shares.manager import SharesManager
+    tmp = tempfile.mkdtemp(prefix='c09-', dir=_TMP_BASE)
+    try:
+        base = os.path.join(os.path.realpath(tmp), 'r')
+        dirs = [os.path.join(base, *d.split('/')) for d in SEQ_DIRS]
+        for d in dirs:
+            os.makedirs(d, exist_ok=True)
+        cwd = os.getcwd()                          # never changed: a relative setting keeps meaning the same directory
+        settings = Settings(credentials=CredentialsSettings(username='me', password='pw'))
+        manager = None
+        prev_roots = []
+        changes = 0
+        chain_name = 'lib' if chain == 'lib' else '>'.join(chain)
+        for k, (di, rel, path, pre) in enumerate(plan):
+            value = os.path.relpath(dirs[di], cwd) if rel else dirs[di]
+            # ---- the user (re)configures the download directory -----------------------
+            settings.shares.download = value
+            if manager is None:
+                manager = SharesManager(settings, EventBus(), None)
+                if chain != 'lib':
+                    manager.naming_strategies = _chain_objects(chain)     # documented way to configure (USAGE.rst)
+            configured = os.path.abspath(settings.shares.download)          # at the moment the path is chosen
+            root = os.path.realpath(configured)
+            if prev_roots and prev_roots[-1] != root:
+                changes += 1
+            created = []
+            name = _own_split(path)[-1]
+            if pre != 'none':
+                for fname in [name] + ([_numbered(name, 1), _numbered(name, 2)] if pre == 'run' else []):
+                    target = os.path.join(configured, fname)
+                    if not os.path.lexists(target):
+                        with open(target, 'xb'):
+                            pass
+                        created.append('f:' + fname)
+            exc = None
+            try:
+                result = manager.calculate_download_path(path)
+            except Exception as e:   # noqa: BLE001 - classified by _judge
+                exc, result = e, None
+            _judge(res, path, chain, configured, root, exc, result, created, prev_roots=tuple(prev_roots),
+                   step=f'step {k} (download setting {value!r}, {changes} change(s) so far): ')
+            if root not in prev_roots:
+                prev_roots.append(root)
+            else:                                   # keep "most recent last" order
+                prev_roots.remove(root)
+                prev_roots.append(root)
+        res.label('seq', 'seq:chain:' + chain_name, 'seq:changes=%d' % changes)
+        if any(rel for _, rel, _, _ in plan):
+            res.label('seq:relative-setting')
+        res.nontrivial = changes > 0
+        res.key = ['seq', chain_name, plan]
     finally:
         shutil.rmtree(tmp, ignore_errors=True)
 
@@ -452,6 +600,8 @@ def run_case(case) -> CaseResult:
     tag = case.get('t')
     if tag == 'pure':
         run_pure_case(case, res)
+    elif tag == 'seq':
+        run_seq_case(case, res)
     elif tag == 'conc':
         from checks import c09_conc
         c09_conc.run_conc_case(case, res)
@@ -465,6 +615,8 @@ def _shard_pure(ctx):
     ctx.enumerate(_enumerated_cases())
     n = 1600 if ctx.tier == 'quick' else 40000
     ctx.explore(pure_case(), n, salt=1)
+    ctx.enumerate(_enumerated_seq_cases())
+    ctx.explore(seq_case(), 150 if ctx.tier == 'quick' else 4000, salt=2)
 
 
 def run_shard(ctx):
@@ -484,7 +636,9 @@ MANIFEST_ENTRY = {
                   'file. Sampled, no proof; the explored set and label histogram are in the evidence.',
     'level_note': 'Second part (checks/c09_conc.py): 2..3 downloads of equally named files from different scripted uploaders '
                   'through the real TransferManager with generated start offsets and executor delays; at no sampled instant '
-                  'two active downloads share a local path, nothing is created outside the download directory. '
+                  'two active downloads share a local path, nothing is created outside the download directory; the '
+                  'download directory setting is optionally changed (absolute / relative) between the downloads and every '
+                  'chosen path is judged against the directory configured at the moment it is chosen. '
                   'Pure part only checks the path chosen by the naming layer (what TransferManager._prepare_download_path '
                   'joins and opens); regular-name and freshness predicates are asserted only for the chains whose '
                   'strategies promise them (see assumptions). POSIX file system; no symlinks, no NUL in paths.',
